@@ -1,182 +1,46 @@
-"""C15 - in-place minification touches only Python files and never corrupts one (structural clauses)."""
+"""C15 - in-place minification touches only Python files and never corrupts one (decided by evaluating the entry point on enumerated scenarios)."""
 import ast
 
-from ..astutil import calls, kwarg, local_defs
-from ..facts import Facts, fact_texts
-from ..model import AnalysisError, src, walk_own
-from .cli_common import MAIN, NOT_BENEFICIAL, MainAnalysis
+from . import cli_e2e as E
+from ..astutil import calls
+from ..model import AnalysisError, src
 
-SUFFIXES = {'.py', '.pyw'}
+MAIN = 'python_minifier.__main__'
 FS_MUTATORS = {'remove', 'unlink', 'rename', 'replace', 'rmdir', 'removedirs', 'renames', 'truncate', 'chmod', 'chown', 'makedirs', 'mkdir', 'symlink', 'link',
                'rmtree', 'move', 'copy', 'copyfile', 'copy2', 'copytree', 'write_text', 'write_bytes', 'touch', 'utime', 'mkstemp', 'NamedTemporaryFile'}
 
 
 def run(model, rep):
-    rep.explanation = ('Decides on __main__.py: (SEL) inside a directory walk a path is yielded only under a suffix test for .py/.pyw on the very file '
-                       'name that is joined into the path, and walk errors are re-raised; (WRT) the only files opened for writing are the visited path '
-                       'under the in-place fact, or the --output path; no other file-system mutation exists in the package; (ORD) the destination is '
-                       'opened only after do_minify returned for that file (or, in the size-fallback handler, only the --output path); (ERR) no handler '
-                       'other than the size fallback swallows an exception, so a failing file ends the run with a traceback/non-zero status. '
-                       'Not decided: atomicity of the final write against a crash.')
-    for r, t in [('C15.SEL', 'yield inside os.walk loop carries endswith((".py",".pyw")) on the joined file name; onerror re-raises; explicit paths yielded as given'),
-                 ('C15.WRT', 'open-for-write targets: loop path under args.in_place, or args.output; no other fs mutation in the package'),
-                 ('C15.ORD', 'open-for-write of the visited path is dominated by the read and by a completed do_minify call'),
-                 ('C15.ERR', 'every except handler in the CLI is the size fallback or ends in raise/sys.exit(non-zero)')]:
+    rep.explanation = ('main() of the command line module is evaluated by the abstract interpreter inside a modelled environment (pmstatic.clirun; see C13) on a '
+                       'directory tree with python files (.py, .pyw), other files (.txt, .pyc, .py.bak, no suffix), a nested directory and a symlinked '
+                       'directory, as single file, several files, directory, and mixed argument lists. Per source the API answers shorter / longer / '
+                       'equal / rejected, or the file is unreadable, at every position of the list. (SEL) exactly the python files below a directory '
+                       'argument and the explicitly named files are read, in order, symlinked directories are followed. (WRT) the only files opened for '
+                       'writing are a selected source under --in-place or the --output file, in binary mode; a syntactic scan finds no other file-system '
+                       'mutation in the package. (ORD) a destination is opened for writing only after minify() has returned for that source, so a file '
+                       'whose minification fails is never truncated. (ERR) an unreadable file, a rejected source or an unlistable directory ends the run '
+                       'with a failure status; files after it are neither read nor written. Not decided: atomicity of the final write against a crash.')
+    for r, t in [('C15.SEL', 'exactly the .py/.pyw files below directory arguments and the named files are read, in order (enumerated)'),
+                 ('C15.WRT', 'files opened for writing: selected source under --in-place, or --output; binary; no other fs mutation in the package'),
+                 ('C15.ORD', 'the destination is opened for writing only after minify() returned for that source'),
+                 ('C15.ERR', 'a failing file ends the run with a failure status; later files untouched; walk errors are not swallowed')]:
         rep.rule(r, t)
-    A = MainAnalysis(model)
-    sm = A.source_modules
-    F = A.facts[sm.qual]
-    defs = A.defs[sm.qual]
-
-    # ---------------- SEL
-    walks = []
-    for n in walk_own(sm.node):
-        if isinstance(n, ast.For) and isinstance(n.iter, ast.Call) and src(n.iter.func) in ('os.walk', 'walk'):
-            walks.append(n)
-    for w in walks:
-        onerr = kwarg(w.iter, 'onerror', 2)
-        ok = False
-        why = 'os.walk has no onerror: unreadable directories are skipped silently'
-        if isinstance(onerr, ast.Name):
-            tgt = model.funcs.get(sm.qual + '.' + onerr.id) or model.funcs.get(MAIN + '.' + onerr.id)
-            if tgt is not None:
-                FF = Facts(tgt.node)
-                ok = FF.fallthrough is None and not FF.returns and bool(FF.raises)
-                why = 'onerror handler %s does not raise on every path' % onerr.id
-        rep.check(ok, 'C15.SEL', sm.loc(w), src(w.iter), 'walk errors are re-raised', why, key='C15.SEL|onerror')
-    for (y, facts) in F.yields:
-        where = sm.loc(y)
-        in_walk = [w for w in walks if any(x is y for x in ast.walk(w))]
-        if not in_walk:
-            # explicit path argument, yielded as given
-            v = y.value
-            ds = defs.get(v.id, []) if isinstance(v, ast.Name) else []
-            ok = isinstance(v, ast.Name) and all(isinstance(d, tuple) and d[0] == '<iter>' and src(d[1]).endswith('.path') for d in ds) and ds
-            rep.check(bool(ok), 'C15.SEL', where, 'yield ' + src(v), 'explicit path argument yielded as given', 'a path that is not one of the command line arguments is yielded outside a directory walk',
-                      key='C15.SEL|explicit|' + src(v))
-            continue
-        w = in_walk[0]
-        v = y.value
-        # yielded value: os.path.join(root, <file var>)
-        fvar = None
-        if isinstance(v, ast.Call) and src(v.func) in ('os.path.join', 'join') and v.args and isinstance(v.args[-1], ast.Name):
-            fvar = v.args[-1].id
-        good = False
-        why = 'no suffix test on the yielded file name; facts: %s' % fact_texts(facts)
-        for (k, p) in (facts or ()):
-            if k.startswith('<') or not p:
-                continue
-            try:
-                t = ast.parse(k, mode='eval').body
-            except SyntaxError:
-                continue
-            if isinstance(t, ast.Call) and isinstance(t.func, ast.Attribute) and t.func.attr == 'endswith' and isinstance(t.func.value, ast.Name) and len(t.args) == 1:
-                try:
-                    sfx = ast.literal_eval(t.args[0])
-                except Exception:
-                    continue
-                sfx = {sfx} if isinstance(sfx, str) else set(sfx)
-                if t.func.value.id != fvar:
-                    why = 'suffix test is on %s but the yielded path is built from %s' % (t.func.value.id, fvar)
-                elif not sfx or not sfx <= SUFFIXES:
-                    why = 'suffix test admits %s; only .py and .pyw files may be selected' % sorted(sfx - SUFFIXES)
-                else:
-                    good = True
-        # the file variable must iterate the walk's file list (third element)
-        if good:
-            names = w.target.elts if isinstance(w.target, ast.Tuple) and len(w.target.elts) == 3 else None
-            fdefs = defs.get(fvar, [])
-            if not (names and all(isinstance(d, tuple) and d[0] == '<iter>' and isinstance(d[1], ast.Name) and d[1].id == getattr(names[2], 'id', None) for d in fdefs)):
-                good = False
-                why = 'the tested name does not iterate the file list of os.walk'
-        rep.check(good, 'C15.SEL', where, 'yield ' + src(v), 'only under %s.endswith((.py,.pyw))' % fvar, why, key='C15.SEL|walk|' + src(v))
-    rep.floor('C15.SEL', 3)
-
-    # ---------------- WRT / ORD
-    mf = A.facts[A.main.qual]
-    mdefs = A.defs[A.main.qual]
-    n_w = 0
-    sinks = A.lifted_sinks()
-    for (fi, c, path, mode, facts) in A.lifted_opens():
-        fdefs = A.defs[fi.qual]
-        if mode is None:
-            rep.violation('C15.WRT', fi.loc(c), src(c), 'open() with a computed mode cannot be classified', key='C15.WRT|mode|' + src(c))
-            continue
-        if not any(ch in mode for ch in 'wax+'):
-            continue
-        if isinstance(path, ast.Constant) and path.value is None:
-            rep.note('open(None, %r) at %s: a helper arm that cannot succeed for this call (no path)' % (mode, fi.loc(c)))
-            continue
-        n_w += 1
-        ptxt = src(path)
-        key = 'C15.WRT|%s|%s|%s' % (fi.name, ptxt, 'handler' if any(k.startswith('<caught:') for k, _ in facts) else 'main')
-        if ptxt.endswith('.output') and isinstance(path, ast.Attribute):
-            ok = (ptxt, True) in facts
-            rep.check(ok, 'C15.WRT', fi.loc(c), 'open(%s, %r)' % (ptxt, mode), 'the --output path, under the fact that it was given', 'the --output path is opened without testing that it was given', key=key)
-            continue
-        pdefs = fdefs.get(path.id, []) if isinstance(path, ast.Name) else []
-        from_walk = bool(pdefs) and all(isinstance(d, tuple) and d[0] == '<iter>' and isinstance(d[1], ast.Call) and isinstance(d[1].func, ast.Name)
-                                         and model.resolve_name(MAIN, d[1].func.id) == A.source_modules.qual for d in pdefs)
-        if not from_walk:
-            rep.violation('C15.WRT', fi.loc(c), 'open(%s, %r)' % (ptxt, mode), 'file opened for writing is neither a selected source path nor the --output path', key=key)
-            continue
-        inplace = any(p and k.endswith('.in_place') for (k, p) in facts if not k.startswith('<'))
-        rep.check(inplace, 'C15.WRT', fi.loc(c), 'open(%s, %r)' % (ptxt, mode), 'selected source path, under the in-place fact', 'a source file is overwritten without --in-place', key=key)
-        dom = ('<did:do_minify>', True) in facts and not any(k.startswith('<caught:') for k, _ in facts)
-        if not dom:
-            # alternatively: what is written through this open is, on every path, a completed do_minify result of this iteration
-            written = [sk for sk in sinks if sk.func is fi and sk.call is c and sk.target is not None and src(sk.target) == ptxt]
-            dom = bool(written) and all(A.judge_sink(sk)[0] is True and A.judge_sink(sk)[1] == 'minified' for sk in written)
-        rd = any(k.startswith('<did:') and k.endswith('.read>') for k, _ in facts)
-        in_try = any(k.startswith('<in-try:') for k, _ in facts)
-        rep.check(dom and rd and not in_try, 'C15.ORD', fi.loc(c), 'open(%s, %r)' % (ptxt, mode), 'dominated by the read and by a completed do_minify(); outside the try',
-                  'the destination can be opened (truncated) before minification of that file has succeeded', key='C15.ORD|' + ptxt)
-    rep.floor('C15.WRT', 2, n_w)
-    rep.floor('C15.ORD', 1)
-    # other file-system mutations anywhere in the package
-    n_mut = 0
-    for rel, tree in model.trees.items():
-        for n in ast.walk(tree):
-            if isinstance(n, ast.Call) and isinstance(n.func, ast.Attribute) and n.func.attr in FS_MUTATORS:
-                base = src(n.func.value)
-                if base in ('os', 'shutil', 'os.path', 'tempfile', 'pathlib') or base.startswith('pathlib.') or base.startswith('Path('):
-                    n_mut += 1
-                    rep.violation('C15.WRT', '%s:%d' % (rel, n.lineno), src(n)[:80], 'file-system mutation other than writing the destination', key='C15.WRT|fs|' + src(n.func))
-            if isinstance(n, (ast.Import, ast.ImportFrom)):
-                mods = [a.name for a in n.names] if isinstance(n, ast.Import) else [n.module or '']
-                for mname in mods:
-                    if mname.split('.')[0] in ('shutil', 'tempfile', 'pathlib'):
-                        rep.note('%s imports %s' % (rel, mname))
-    rep.ok('C15.WRT', 'src/python_minifier', 'no other file-system mutation', '%d trees scanned' % len(model.trees), key='C15.WRT|fs-scan', trivial=True)
-
-    # ---------------- ERR
-    n_h = 0
-    for fi in [f for f in model.funcs.values() if f.module == MAIN]:
-        for t in [n for n in walk_own(fi.node) if isinstance(n, ast.Try)]:
-            for h in t.handlers:
-                n_h += 1
-                tname = src(h.type) if h.type is not None else '<bare>'
-                key = 'C15.ERR|%s|%s' % (fi.name, tname)
-                if h.type is not None and isinstance(h.type, ast.Name) and model.resolve_name(MAIN, h.type.id) == A.exc.qual:
-                    rep.ok('C15.ERR', fi.loc(h), 'except ' + tname, 'the size-fallback handler', key=key)
-                    continue
-                HF = Facts(body=h.body)
-                terminal = HF.fallthrough is None and not HF.returns and not any(True for _ in HF.loop_exits)
-                exits_ok = True
-                for (s, _f) in HF.raises:
-                    if isinstance(s, ast.Expr):  # sys.exit(...)
-                        a = s.value.args[0] if s.value.args else None
-                        if a is None or (isinstance(a, ast.Constant) and a.value in (0, None, False)):
-                            exits_ok = False
-                has_jump = any(isinstance(x, (ast.Continue, ast.Break)) for x in ast.walk(ast.Module(body=h.body, type_ignores=[])))
-                rep.check(terminal and exits_ok and not has_jump, 'C15.ERR', fi.loc(h), 'except ' + tname, 'handler ends in raise / non-zero exit',
-                          'handler swallows %s: a failing file no longer stops the run with a non-zero status' % tname, key=key)
-            if t.finalbody:
-                for x in ast.walk(ast.Module(body=t.finalbody, type_ignores=[])):
-                    if isinstance(x, (ast.Return, ast.Continue, ast.Break)):
-                        rep.violation('C15.ERR', fi.loc(t), 'finally: ' + type(x).__name__, 'jump out of finally swallows the exception', key='C15.ERR|finally|' + fi.name)
-        for w in [n for n in walk_own(fi.node) if isinstance(n, (ast.With, ast.AsyncWith))]:
-            for it in w.items:
-                if 'suppress' in src(it.context_expr):
-                    rep.violation('C15.ERR', fi.loc(w), src(it.context_expr), 'exceptions suppressed by context manager', key='C15.ERR|suppress|' + fi.name)
-    rep.floor('C15.ERR', 2, n_h)
+    main = model.func(MAIN + '.main')
+    where = main.loc()
+    modes = E.run_modes(model, rep.tier)
+    E.report(rep, 'C15.SEL', where, modes, ('selection',), 'selection', 'exactly the selected python sources are read, in order', None)
+    E.report(rep, 'C15.WRT', where, modes, ('destination', 'channel'), 'destinations', 'only selected sources (in place) or --output are opened for writing, in binary mode', None)
+    E.report(rep, 'C15.ORD', where, modes, ('order',), 'order', 'no destination is opened for writing before minify() returned for its source', None)
+    E.report(rep, 'C15.ERR', where, modes, ('failure',), 'failures', 'a failing source ends the run with a failure status, later files untouched', None)
+    for r in ('C15.SEL', 'C15.WRT', 'C15.ORD', 'C15.ERR'):
+        rep.floor(r, 9)
+    # no other file-system mutation anywhere in the package
+    n = 0
+    for q, fi in sorted(model.funcs.items()):
+        for c in calls(fi.node):
+            f = c.func
+            name = f.attr if isinstance(f, ast.Attribute) else (f.id if isinstance(f, ast.Name) else None)
+            if name in FS_MUTATORS and isinstance(f, ast.Attribute) and src(f.value).split('.')[0] in ('os', 'shutil', 'pathlib', 'tempfile', 'Path'):
+                n += 1
+                rep.violation('C15.WRT', fi.loc(c), src(c)[:80], 'file-system mutation other than writing the destination', key='C15.WRT|fs|%s|%s' % (q, name))
+    rep.ok('C15.WRT', 'src/python_minifier', 'scan of %d functions for file-system mutators' % len(model.funcs), 'none', cells=len(model.funcs), key='C15.WRT|scan')
